@@ -125,7 +125,9 @@ def Reg.getOrCreate (r : Reg V) (ty : MType) (a : GetArgs V) (now : Int) : Excep
   if labelNamesBad names reserved then .ok (.error .reservedLabel) else
   -- vector: reuse the one with these label names, else create it (help and buckets are fixed at creation)
   let existingVec : Option (VecM V) := (r.find a.name).bind fun m => if m.ty == ty then m.vecs.find? (·.names == names) else none
-  let vec : VecM V := existingVec.getD { names := names, help := a.help, bounds := a.bounds, maxAge := a.maxAge, ageBuckets := a.ageBuckets, objectives := a.objectives }
+  -- `helpFor`: the help string of the first vector ever created for this name wins (vectors are never removed)
+  let help : Bytes := (((r.find a.name).bind (·.vecs.head?)).map (·.help)).getD a.help
+  let vec : VecM V := existingVec.getD { names := names, help := help, bounds := a.bounds, maxAge := a.maxAge, ageBuckets := a.ageBuckets, objectives := a.objectives }
   -- child creation (`GetMetricWith`) runs the constructor checks of client_golang
   if ty == .histogram && !strictlyIncreasing vec.bounds then .error .bucketsNotIncreasing else
   if ty == .summary && vec.maxAge < 0 then .error .negativeMaxAge else
